@@ -1,6 +1,6 @@
 SPECIFICATION Spec
 CONSTANT MaxItems = 3
 CONSTANT FullLen = 2
-CONSTANT McTypes = {"CDATA", "ID", "NMTOKEN", "NMTOKENS", "ENUM"}
+CONSTANT McTypes = {"CDATA", "NMTOKENS", "ENUM"}
 INVARIANT Inv
 CHECK_DEADLOCK FALSE
